@@ -112,6 +112,37 @@ def judge_numeric(ctx, ids_fn, rows, kf=None):
                 sel += 1 if a else 0
         if 0 < sel < len(rows):
             ctx.nontrivial.add("num:" + t)
+    # the same functions applied to a LITERAL (a backend may evaluate those itself): the filter must select what it selects with the value written out -
+    # round is half AWAY FROM ZERO (OData 4.01 5.1.1.9.1), floor / ceiling toward -inf / +inf
+    from fractions import Fraction
+    import math
+    def spec_val(fn, lit):
+        q = Fraction(lit)
+        if fn == "floor":
+            return math.floor(q)
+        if fn == "ceiling":
+            return math.ceil(q)
+        return int(q + Fraction(1, 2)) if q >= 0 else -int(-q + Fraction(1, 2))
+    for fn in ROUND_FNS:
+        for lit in ("2.5", "0.5", "-0.5", "-2.5", "1.5", "3.49", "-3.5", "2.0", "-1.25", "0.25", "4.5"):
+            val = spec_val(fn, lit)
+            for tmpl in ("f1 eq {x}", "f1 lt {x}", "not (f1 ge {x})", "round(f1) eq {x}", "{x} eq f1"):
+                a, b = tmpl.format(x=f"{fn}({lit})"), tmpl.format(x=str(val))
+                ga, gb = ids_fn(a), ids_fn(b)
+                ctx.evaluations += 1
+                if not isinstance(ga, set) or not isinstance(gb, set):
+                    tally["literal:refused-or-error"] += 1
+                    if isinstance(ga, set) != isinstance(gb, set) and "skip" not in (str(ga) + str(gb)):
+                        viol.append((a, None, f"{a!r} gives {str(ga)[:60]} but {b!r} gives {str(gb)[:60]}"))
+                    continue
+                if ga != gb:
+                    if kf and kf(fn, {"_q": int(Fraction(lit) * 4)}):
+                        tally["under-known-finding"] += 1
+                    else:
+                        tally["SPEC-MISMATCH"] += 1
+                        viol.append((a, None, f"{fn}({lit}) is {val}: the filter selects ids {sorted(ga)[:8]} but {b!r} selects {sorted(gb)[:8]}"))
+                else:
+                    tally["literal:agree"] += 1
     return viol, tally
 
 
